@@ -1,0 +1,13 @@
+use naijascript::arena::Arena;
+use naijascript::syntax::scanner::Lexer;
+
+#[test]
+fn a_long_run_of_malformed_numbers_does_not_recurse() {
+    // `1.a` is reported and skipped; the lexer used to call itself for the next token.
+    let src = "1.a ".repeat(300_000);
+    let arena = Arena::new(1 << 30).unwrap();
+    let mut lexer = Lexer::new(&src, &arena);
+    let tokens = lexer.by_ref().count();
+    assert_eq!(tokens, 0); // the character after the dot is skipped with the number
+    assert_eq!(lexer.errors.diagnostics.len(), 300_000);
+}
